@@ -752,6 +752,57 @@ fn noninteger(c: &mut Case) {
     }
 }
 
+/// Values a hair above an integer code (a few ulps up to 5e-4: `(0.1 + 0.2) * 10.0`, a code that went through a lossy
+/// unit conversion). The statement leaves open whether such a cell counts as "non-integer"; whichever way `fit` decides,
+/// it has to stand by it: either fit returns an error, or fitting *and* transforming the same matrix succeed and give the
+/// encoding of the matrix with the exact codes.
+fn nearinteger(c: &mut Case) {
+    let w = pick_w(c);
+    let (mut inp, ks, _) = random_input(c, w, true);
+    let n = inp.x.r;
+    let m = inp.cat.len();
+    let j = inp.cat[c.rng.below(m)];
+    let exact = inp.x.clone();
+    let rows: Vec<usize> = if c.rng.bool(0.5) { vec![c.rng.below(n)] } else { (0..n).filter(|_| c.rng.bool(0.5)).collect() };
+    if rows.is_empty() {
+        c.skip("no row drawn");
+        return;
+    }
+    let ulp = if matches!(w, W::F32) { f32::EPSILON as f64 } else { f64::EPSILON };
+    let mut vals = Vec::new();
+    for &r in &rows {
+        let base = inp.x.at(r, j);
+        let off = if c.rng.bool(0.6) { base.max(1.0) * ulp * c.rng.int(1, 4) as f64 } else { c.rng.logu(1e-9, 5e-4) };
+        let v = w.round(base + off);
+        if !(v > base && v - base < 9e-4 && v < 65535.0) {
+            c.skip("offset lost in rounding or too large for the width");
+            return;
+        }
+        vals.push(v);
+        inp.x.set(r, j, v);
+    }
+    c.describe(json!({"op": "near-integer cells", "width": w.name(), "categorical_idx": inp.idx, "X": mat_json(&inp.x),
+        "near_integer": {"column": j, "rows": rows, "values": vals}, "categories_per_column(0=plain)": ks}));
+    c.nontrivial();
+    c.bucket(&format!("width:{}", w.name()));
+    let sg = w.name().to_string();
+    match encode(c, w, &inp.x, None, &inp.idx) {
+        None => {}
+        Some(Out::FitErr(_)) => c.bucket("nearinteger:fit-rejects"),
+        Some(Out::TransformErr(e)) => {
+            c.check("onehot.nearinteger.fit-ok=>transform-ok", false, &sg, || format!("fit accepted categorical column {} holding {:?} in rows {:?}, but transforming the same matrix returned Err({})", j, vals, rows, e));
+        }
+        Some(Out::Done(got)) => {
+            c.bucket("nearinteger:fit-accepts");
+            c.check("onehot.nearinteger.fit-ok=>transform-ok", true, &sg, String::new);
+            // the encoding of the matrix with the exact codes, except that the touched plain cells do not exist (the column is categorical)
+            let rf = reference(&exact, &inp.cat);
+            let lsig = layout_sig(exact.c, &inp.cat, &rf.k);
+            compare(c, &exact, &rf, &got, &format!("nearinteger/{}", lsig));
+        }
+    }
+}
+
 // ------------------------------------------------------------------------------------------------
 // family `mapper`: CategoryMapper
 // ------------------------------------------------------------------------------------------------
@@ -993,6 +1044,7 @@ fn main() {
             Family::new("random", 20000, 300000, random),
             Family::new("unseen", 4000, 50000, unseen),
             Family::new("noninteger", 4000, 50000, noninteger),
+            Family::new("nearinteger", 2000, 25000, nearinteger),
             Family::new("mapper", 5000, 60000, mapper),
         ],
         min_nontrivial: 8000,
